@@ -227,4 +227,75 @@ Exempt(e, i) == \E j \in 1..Len(e.ml) : e.ml[j].a < i /\ i <= e.ml[j].b
 R12a(e) == e.tab = 0 \/ \A i \in 1..Len(e.lines) :
               e.lines[i].n = 0 \/ Exempt(e, i) \/ e.lines[i].ind % e.tab = 0
 
+(***************************************************************************)
+(* R12b — the multiple of the unit does not depend on the unit: outputs    *)
+(* under two units at a width where nothing wraps differ only in leading   *)
+(* spaces, by exactly the ratio of the units.                              *)
+(***************************************************************************)
+R12b(e) == /\ Len(e.l1) = Len(e.l2)
+           /\ \A i \in 1..Len(e.l1) :
+                LET a == e.l1[i]  b == e.l2[i] IN
+                /\ a.ex = b.ex
+                /\ a.rest = b.rest
+                /\ (a.ex \/ a.rest = "") \/ a.ind * e.u2 = b.ind * e.u1
+
+(***************************************************************************)
+(* R19 — import items: order kept with reordering off; with it on a sorted *)
+(* permutation unless the import holds a comment or binds a name twice;    *)
+(* nothing else differs between the two outputs.                           *)
+(***************************************************************************)
+ItemTexts(imp) == [i \in 1..Len(imp.items) |-> imp.items[i].text]
+BagOf(sq) == [x \in Range(sq) |-> Cardinality({i \in 1..Len(sq) : sq[i] = x})]
+DupBound(imp) == \E i, j \in 1..Len(imp.items) : i < j /\ imp.items[i].bound = imp.items[j].bound
+SortedRanks(imp) == \A i \in 1..(Len(imp.items) - 1) : imp.items[i].rank <= imp.items[i+1].rank
+R19(e) ==
+  /\ ~e.oerr
+  /\ Len(e.off) = Len(e.in) /\ Len(e.on) = Len(e.in)
+  /\ \A i \in 1..Len(e.in) :
+       /\ ItemTexts(e.off[i]) = ItemTexts(e.in[i])
+       /\ BagOf(ItemTexts(e.on[i])) = BagOf(ItemTexts(e.in[i]))
+       /\ IF e.in[i].has_comment \/ DupBound(e.in[i]) \/ e.in[i].disabled      \* disabled: verbatim (C07)
+          THEN ItemTexts(e.on[i]) = ItemTexts(e.in[i])
+          ELSE SortedRanks(e.on[i])
+  /\ e.rest_on = e.rest_off
+
+(***************************************************************************)
+(* R07 — `@typstyle off`: the node after the k-th directive of the input   *)
+(* appears verbatim (apart from blanks at line ends) after the k-th        *)
+(* directive of the output, possibly inside optional delimiters the        *)
+(* printer added, or — when the delimiters that enclosed directive and     *)
+(* node were dropped — as a prefix of what follows the directive.          *)
+(***************************************************************************)
+RTrimLines(ls) == [i \in 1..Len(ls) |-> RTrim(ls[i])]
+IsStrPrefix(a, b) == Len(a) <= Len(b) /\ SubSeq(b, 1, Len(a)) = a
+(* a (lines) is a prefix of b (lines): all lines but the last equal, the last a prefix *)
+PrefixLines(a, b) ==
+  /\ Len(a) >= 1 /\ Len(a) <= Len(b)
+  /\ \A i \in 1..(Len(a) - 1) : a[i] = b[i]
+  /\ IsStrPrefix(a[Len(a)], b[Len(a)])
+Verbatim(din, dout) ==
+  LET want == RTrimLines(din.lines) IN
+  \/ \E c \in 1..Len(dout.cands) : RTrimLines(dout.cands[c]) = want
+  \/ PrefixLines(want, RTrimLines(dout.rest))
+R07(e) ==
+  /\ Len(e.dout) = Len(e.din)                                   \* every directive is kept
+  /\ \A k \in 1..Len(e.din) :
+       (e.din[k].has /\ e.din[k].target) => (e.dout[k].has /\ Verbatim(e.din[k], e.dout[k]))
+
+(***************************************************************************)
+(* R13 — range formatting is safe to splice.  One `range` event = one      *)
+(* distinct result of format_source_range on a source, with all the        *)
+(* requested ranges (s, e) that produced it; ts, te = the request clamped  *)
+(* to the text and trimmed, recomputed by the harness.                     *)
+(***************************************************************************)
+R13NoPanic(e) == e.outcome \in {"ok", "err"}
+R13Cover(e) == e.outcome = "ok" =>
+                 /\ <<e.a, e.b>> \in {<<e.node_ranges[i][1], e.node_ranges[i][2]>> : i \in 1..Len(e.node_ranges)}
+                 /\ \A i \in 1..Len(e.reqs) : e.a <= e.reqs[i].ts /\ e.reqs[i].te <= e.b
+R13Refuse(e) == /\ (e.outcome = "ok" => ~e.node_all_err)          \* never text for an erroneous node
+                /\ (e.outcome = "err" => e.ierr)                  \* a well-formed source is never refused
+R13Splice(e) == (e.outcome = "ok" /\ ~e.ierr) =>
+                  /\ ~e.splice_err
+                  /\ ("in" \in DOMAIN e => Norm(e.in, "markup") = Norm(e.out, "markup"))
+
 =============================================================================
